@@ -160,6 +160,19 @@ class Builder:
         return m, b, v
 
 
+def dep_hashes(task):
+    """identifiers of the tasks `task.dependencies()` reports; a view among them (the documented result is tasks) counts for the tasks it reports itself"""
+    out, stack, seen = [], list(task.dependencies()), 0
+    while stack and seen < 10000:
+        d = stack.pop()
+        seen += 1
+        if hasattr(d, 'hash'):
+            out.append(d.hash())
+        elif hasattr(d, 'dependencies'):
+            stack.extend(d.dependencies())
+    return out
+
+
 def model_deps(m):
     """tasks occurring anywhere in the model expression (independent re-implementation of `occurs`)"""
     out = set()
@@ -248,7 +261,7 @@ def check(run):
             run.case(json.dumps([rp['values'], m]), nontrivial=nontriv)
             run.count('malformed' if malformed else 'wellformed')
             # dependencies
-            reported = sorted({hashes.index(d.hash()) for d in consumer.dependencies() if d.hash() in hashes})
+            reported = sorted({hashes.index(h_) for h_ in dep_hashes(consumer) if h_ in hashes})
             occ = sorted(model_deps(m))
             if set(occ) - set(reported):
                 run.fail('view-dependency-missing', 'a consumer of %s does not depend on tasks %s that occur underneath it (reported %s)' % (json.dumps(m)[:300], sorted(set(occ) - set(reported)), reported), rp)
@@ -278,7 +291,7 @@ def check(run):
             except Exception:
                 h_after = None
             consumer2 = Task(lib.lit, 1000 * ci + 998, obj)
-            reported2 = sorted({hashes.index(d.hash()) for d in consumer2.dependencies() if d.hash() in hashes})
+            reported2 = sorted({hashes.index(h_) for h_ in dep_hashes(consumer2) if h_ in hashes})
             if h_after != h_before:
                 run.fail('view-hash-changes', 'the identifier of the view %s changed after it was evaluated' % json.dumps(m)[:300], rp)
             if reported2 != reported:
@@ -417,7 +430,6 @@ def check(run):
             rp_ = {'kind': 'tasklet-index', 'form': label, 'values': Rv, 'pos': pos}
             run.case(('tasklet-index', ci, run.seed), nontrivial=True)
             run.count('tasklet_index_cases')
-            dep_hashes = {d_.hash() for d_ in cons_.dependencies()} | {dd.hash() for d_ in cons_.dependencies() if isinstance(d_, _Tasklet) for dd in [d_.base] if hasattr(dd, 'hash')}
             deps_all = set()
             stack_ = list(cons_.dependencies())
             while stack_:
@@ -509,7 +521,7 @@ def check(run):
             for sl in sls:
                 view = mseq[sl]
                 consumer = Task(lib.lit, 77, view)
-                reported = {bh.index(d.hash()) for d in consumer.dependencies() if d.hash() in bh}
+                reported = {bh.index(h_) for h_ in dep_hashes(consumer) if h_ in bh}
                 reads = {i // step for i in range(n)[sl]}
                 run.case(('mapslice', n, step, sl.start, sl.stop, sl.step), nontrivial=len(reads) >= 2)
                 rp = {'kind': 'mapslice', 'n': n, 'step': step, 'slice': [sl.start, sl.stop, sl.step]}
@@ -532,7 +544,7 @@ def check(run):
             for pidx in range(-n, n):
                 item = mseq[pidx]
                 consumer = Task(lib.lit, 78, item)
-                reported = {bh.index(d.hash()) for d in consumer.dependencies() if d.hash() in bh}
+                reported = {bh.index(h_) for h_ in dep_hashes(consumer) if h_ in bh}
                 want_block = (pidx % n) // step
                 run.count('mapped_int_items')
                 rp = {'kind': 'mapitem', 'n': n, 'step': step, 'index': pidx}
